@@ -247,14 +247,17 @@ def decCertificateRequest (c : Codes) (data : Bytes) : Outcome CertificateReques
 
 def optBytes (b : Bool) (x : Option Bytes) : Option Bytes := if b then x else some []
 
+/-- `b.AddUint8(x)` followed by a length-prefixed child -/
+def prefixed (x : UInt8) (o : Option Bytes) : Option Bytes :=
+  match o with
+  | some v => some (x :: v)
+  | none => none
+
 /-- one trusted authority inside the builder loop -/
 def encTA (c : Codes) (ta : TA) : Option Bytes :=
   if ta.ty.toNat = c.taPreAgreed then some [ta.ty]
   else if ta.ty.toNat = c.taKeyHash ∨ ta.ty.toNat = c.taCertHash then some (ta.ty :: ta.id)
-  else if ta.ty.toNat = c.taX509Name then
-    match vec16 ta.id with
-    | some v => some (ta.ty :: v)
-    | none => none
+  else if ta.ty.toNat = c.taX509Name then prefixed ta.ty (vec16 ta.id)
   else some [ta.ty]
 
 /-- `exts.AddUint16(code); exts.AddUint16LengthPrefixed(body)` -/
@@ -275,7 +278,7 @@ def vec16x2 (inner : Option Bytes) : Option Bytes :=
 def alpnItem (p : Bytes) : Option Bytes := vec8 p
 
 def encSNI (c : Codes) (name : Bytes) : Option Bytes :=
-  ext c.extServerName (vec16x2 (match vec16 name with | some v => some (0 :: v) | none => none))
+  ext c.extServerName (vec16x2 (prefixed 0 (vec16 name)))
 
 def encClientExtensions (c : Codes) (m : ClientHello) : Option Bytes :=
   match optBytes (decide (m.serverName.length > 0)) (encSNI c m.serverName),
@@ -470,7 +473,7 @@ def decClientHello (c : Codes) (data : Bytes) : Outcome ClientHello :=
 
 def encServerExtensions (c : Codes) (m : ServerHello) : Option Bytes :=
   match optBytes (m.ocsp && decide (m.ocspResponse.length > 0))
-          (ext c.extStatusRequest (match vec24 m.ocspResponse with | some v => some (1 :: v) | none => none)),
+          (ext c.extStatusRequest (prefixed 1 (vec24 m.ocspResponse))),
         optBytes (decide (m.alpn.length > 0)) (ext c.extALPN (vec16x2 (vec8 m.alpn))),
         optBytes m.sniAck (some (be16 c.extServerName ++ [0, 0])) with
   | some e1, some e2, some e3 => some (e1 ++ e2 ++ e3)
